@@ -514,6 +514,13 @@ func checkCmd(args []string) int {
 		if len(res.Unsupported) > 0 && !spec.allowUnsupported(h.fn) {
 			broken = true
 		}
+		for _, n := range res.Inconclusive {
+			if strings.Contains(n, "assertion") {
+				// an assertion the solvers could not decide is not a pass
+				fmt.Printf("INCONCLUSIVE harness=%s %s\n", h.fn, n)
+				broken = true
+			}
+		}
 		if res.Reached["end"] == 0 {
 			fmt.Printf("VACUOUS harness=%s: no feasible path reaches the end of the harness\n", h.fn)
 			broken = true
